@@ -153,7 +153,7 @@ class Tot:
                   "stream_compared": 0, "stream_live": 0, "stream_values": 0, "excluded_by_PortReuseSafe": 0, "no_traffic": 0,
                   "env_checked": 0, "model_stream_checked": 0, "noise_cases": 0, "ref_checked": 0,
                   "commented_verilog_cases": 0, "onlydestregs_cases": 0, "domain_map_nonidentity_cases": 0, "shared_domain_cases": 0,
-                  "unused_domain_cases": 0, "dly_cases": 0, "delayed_runs": 0, "delayed_live": 0, "delayed_live_fanout": 0}
+                  "unused_domain_cases": 0, "slow_release_output_cases": 0, "slow_release_input_cases": 0, "dly_cases": 0, "delayed_runs": 0, "delayed_live": 0, "delayed_live_fanout": 0}
         self.dist = {"procs": {}, "rsize": {}, "maxfan": {}, "inputs": {}, "outputs": {}, "mixed_consumers": 0, "unlinked_sinks": 0,
                      "unconsumed_drivers": 0, "bonds": 0}
         self.distinct = set()
@@ -172,6 +172,12 @@ class Tot:
             self.n["domain_map_nonidentity_cases"] += 1
         if len(set(doms)) < len(doms):
             self.n["shared_domain_cases"] += 1
+        e = tagged(ci, "E") or ""
+        for f in e.split():
+            if f.startswith("orel=") and any(x not in "0,;" for x in f[5:]):
+                self.n["slow_release_output_cases"] += 1
+            if f.startswith("ihold=") and any(x not in "0,;" for x in f[6:]):
+                self.n["slow_release_input_cases"] += 1
         dm = tagged(ci, "DM")
         if dm and dm.isdigit() and int(dm) > len(set(doms)):
             self.n["unused_domain_cases"] += 1
@@ -360,6 +366,7 @@ def compare_dly(tot, ci_all):
             tot.fails.append(dict(base, kind="harness-build", detail=g[:300]))
             continue
         ft = tot.feat(g)
+        tot.opts(ci)
         nout = int(g.split()[3])
         ss = streams(tagged(ci, "SS"), nout)
         if ss is None:
@@ -428,7 +435,9 @@ def run(rep):
         "stream_eq_full; with the repaired handshake (/repo fix 18c0f8e, models following it) theorem port_reuse_safe_always proves it for every machine, "
         "so the generator also emits back-to-back uses of one port (VERIF_C02_TIGHT=0 turns that off). The monitors BMV.Bm.isaHazard / rtlHazard stay "
         "in the oracle: a run that meets the signature is counted under excluded_by_PortReuseSafe and not stream-compared (0 expected)",
-        "protocol-abiding environment: holds valid until received and waits for received to drop; acknowledges after valid and holds the acknowledge until valid drops",
+        "protocol-abiding environment: holds valid until received (and up to 8 ticks longer) and waits for received to drop; acknowledges after valid, "
+        "holds the acknowledge until valid drops and — only where the external output is the sole consumer of its driver — up to 8 ticks longer "
+        "(received of an output is the AND of its consumers: a slow-releasing consumer next to a sibling is outside the protocol, docs/C02.md)",
         "ha mode, L = 0, opcodes nop rset inc dec clr add mult cpy j i2rw r2owa; shared objects, external modules (etherbond, bmapi, board top levels), "
         "simbox delay distributions are outside the model",
         "timing independence of the simulator itself: a second (and for machines with fan-out to several processors a third and fourth) real VM runs the "
